@@ -14,3 +14,6 @@ func VerifRefWithMailbox(path string, mb vivid.Mailbox) *Ref {
 	r.cache.Store(&mb)
 	return r
 }
+
+// VerifEventStream returns the system's event stream without going through the root context.
+func VerifEventStream(s *System) vivid.EventStream { return s.eventStream }
